@@ -44,7 +44,8 @@ UNPROVED = [
     'computation stays below 2^31 on the legal domain is not a Lean theorem (UBSan covers the explored inputs; the harness '
     'avoids frame_size > INT_MAX/400 where 400*new_size overflows in the C code)',
     'MsInv after opus_multistream_encode: proved for creation and every ctl request; that a multistream encode call keeps the '
-    'streams\' first/application in agreement is monitored by the tie, not proved',
+    'per-stream ranges, one common application and "no stream has coded a frame before the first stream" is monitored '
+    'after every call by suite ctl-rand (CONTRACT(ms-*)), not proved',
     'projection encoder/decoder creation and the surround layout tables: modelled and tied (suite ctl-create), no theorem',
 ]
 LEVEL_TEXT = ('proof of the modelled chain: every ctl request of encoder/decoder/multistream/projection objects as a state '
@@ -164,9 +165,8 @@ def _history_violations(inp, outp):
                     ok = None          # depends on the stream layout (forced stereo is refused when a mono stream exists)
                 if rid == 4000 and ok and prev is not None:
                     # OPUS_SET_APPLICATION: refused after the first coded frame unless it restates the application
-                    pcols = prev.split(';')[-1].split(',')
-                    first, app = pcols[len(ENC_GET) + 4], pcols[0]
-                    if first == '0' and str(v) != app:
+                    sts = [prev.split(',')] if kind == 'enc' else [x.split(',') for x in prev.split(';')[1:]]
+                    if any(c[len(ENC_GET) + 4] == '0' and str(v) != c[0] for c in sts):
                         ok = False
                 if ok is True and ret != 'OK':
                     res.append(('ctl-legal', prefix, 'OK', ret, 'a documented-legal value (%d) of request %d was refused' % (v, rid)))
